@@ -73,6 +73,8 @@ type Ctx struct {
 	counters   map[string]int64
 	violations []Violation
 	nviol      int64
+	kindViol   int64
+	perClass   map[string]int
 	inconcl    int64
 	inconclWhy map[string]int64
 	curCase    string
@@ -80,7 +82,7 @@ type Ctx struct {
 }
 
 const maxDistinct = 4 << 20
-const maxViolationsKept = 40
+const maxViolationsKept = 300
 const abortAfterViolations = 200
 
 func newCtx(p *Prop, tier string, seed int64, shard, nshards int) *Ctx {
@@ -133,7 +135,13 @@ func (c *Ctx) wantSample(kind string) bool {
 func (c *Ctx) violate(v Violation) {
 	c.mu.Lock()
 	c.nviol++
-	if len(c.violations) < maxViolationsKept {
+	c.kindViol++
+	if c.perClass == nil {
+		c.perClass = map[string]int{}
+	}
+	c.perClass[v.Class]++
+	// keep the first few witnesses of every class (a frequent class must not hide a rare one)
+	if c.perClass[v.Class] <= 3 && len(c.violations) < maxViolationsKept {
 		c.violations = append(c.violations, v)
 	}
 	c.mu.Unlock()
@@ -290,15 +298,18 @@ func (c *Ctx) runAll() {
 		for idx := c.Shard; idx < n; idx += c.NShards {
 			c.runCase(kd, CaseSeed(c.Seed, kd.Name, idx))
 			c.mu.Lock()
-			stop := c.nviol >= abortAfterViolations
+			stop := c.kindViol >= abortAfterViolations
 			c.mu.Unlock()
 			if stop {
-				// the tree is violating; more cases add nothing and leaked goroutines of failed
-				// cases make every further quiescence poll slower
-				fmt.Fprintf(os.Stderr, "aborting child after %d violations\n", abortAfterViolations)
-				return
+				// the tree is violating; more cases of this kind add nothing and leaked goroutines
+				// of failed cases make every further quiescence poll slower
+				fmt.Fprintf(os.Stderr, "skipping the rest of kind %s after %d violations\n", kd.Name, abortAfterViolations)
+				break
 			}
 		}
+		c.mu.Lock()
+		c.kindViol = 0
+		c.mu.Unlock()
 	}
 }
 
